@@ -37,3 +37,112 @@ package graph
 //@   modifies nothing
 //@   requires r != nil
 //@   ensures @fields res != nil && res.StoreID == r.StoreID && res.AuthorizationModelID == r.AuthorizationModelID && res.ContextualTuples == r.ContextualTuples && res.Context == r.Context && res.Consistency == r.Consistency && res.LastCacheInvalidationTime == r.LastCacheInvalidationTime && res.invariantCacheKey == r.invariantCacheKey && res.objectType == r.objectType && res.userType == r.userType
+
+// ------------------------------------------------------------------ C01 / C10: the direct-assignment leaves of the default engine
+// direct tuple lookup: the store is asked for exactly (object, relation, user) of the request in the request's store
+// with the request's consistency; allowed=true only if the tuple was found, passed validation against the model in
+// use (a stored tuple that is not valid for the model is ignored) and its condition evaluated to true without error;
+// an evaluation error fails the handler (never allowed=true)
+//@ func (*LocalChecker).checkDirectUserTuple$1(ctx) (res, err)
+//@   property C01 C10
+//@   option nosafety
+//@   option defer_neutral
+//@   ensures @onlyValidSatisfied res != nil && res.Allowed ==> err == nil && read && readErr == nil && validated && valErr == nil && condChecked && condErr == nil && condMet
+//@   ensures @errorNeverAllows err != nil ==> res == nil
+//@   monitor leaf
+//@     ghost read = false
+//@     ghost got *openfgav1.Tuple = nil
+//@     ghost readErr error = nil
+//@     ghost validated = false
+//@     ghost valErr error = nil
+//@     ghost valKey *openfgav1.TupleKey = nil
+//@     ghost condChecked = false
+//@     ghost condMet = false
+//@     ghost condErr error = nil
+//@     before call storage.RelationshipTupleReader.ReadUserTuple args _, _, st, f, o : assert st == deref(req).GetStoreID() && f.Object == deref(reqTupleKey).GetObject() && f.Relation == deref(reqTupleKey).GetRelation() && f.User == deref(reqTupleKey).GetUser() && o.Consistency.Preference == deref(req).GetConsistency()
+//@     after call storage.RelationshipTupleReader.ReadUserTuple returning t, e : read = true ; got = t ; readErr = e
+//@     before call validation.ValidateTupleForRead args ts, k : assert read && ts == deref(typesys) && k == got.GetKey()
+//@     after call validation.ValidateTupleForRead args ts, k returning e : validated = true ; valErr = e ; valKey = k
+//@     before call checkutil.BuildTupleKeyConditionFilter args _, c, ts : assert c == deref(req).Context && ts == deref(typesys)
+//@     before call dynamic args k : assert validated && valErr == nil && k == valKey
+//@     after call dynamic returning m, e : condChecked = true ; condMet = m ; condErr = e
+
+// public (typed wildcard) assignment: the store is asked for the userset tuples of exactly the request's object and
+// relation restricted to the wildcard of the user's type, with the request's consistency; invalid tuples are filtered
+// by the model in use and conditions by the request context; allowed=true only if that filtered sequence yields a tuple
+//@ func (*LocalChecker).checkPublicAssignable$1(ctx) (res, err)
+//@   property C01 C10
+//@   option nosafety
+//@   option defer_neutral
+//@   ensures @onlyIfYielded res != nil && res.Allowed ==> err == nil && nexted && nextErr == nil
+//@   ensures @errorNeverAllows err != nil ==> res == nil
+//@   monitor leaf
+//@     ghost readIt iface = nil
+//@     ghost keyIt iface = nil
+//@     ghost validFilter ref = nil
+//@     ghost filterMade = false
+//@     ghost validIt iface = nil
+//@     ghost condFilter ref = nil
+//@     ghost condMade = false
+//@     ghost nexted = false
+//@     ghost nextErr error = nil
+//@     before call storage.RelationshipTupleReader.ReadUsersetTuples args _, _, st, f, o : assert st == deref(storeID) && f.Object == deref(reqTupleKey).GetObject() && f.Relation == deref(reqTupleKey).GetRelation() && len(f.AllowedUserTypeRestrictions) == 1 && f.AllowedUserTypeRestrictions[0] == deref(wildcardRelationReference) && o.Consistency.Preference == deref(req).GetConsistency()
+//@     after call storage.RelationshipTupleReader.ReadUsersetTuples returning it, e : readIt = it
+//@     before call storage.NewTupleKeyIteratorFromTupleIterator args it : assert it == readIt
+//@     after call storage.NewTupleKeyIteratorFromTupleIterator returning k : keyIt = k
+//@     before call validation.FilterInvalidTuples args ts : assert ts == deref(typesys)
+//@     after call validation.FilterInvalidTuples returning f : validFilter = f ; filterMade = true
+//@     before call storage.NewFilteredTupleKeyIterator args it, f : assert it == keyIt && filterMade && f == validFilter
+//@     after call storage.NewFilteredTupleKeyIterator returning it : validIt = it
+//@     before call checkutil.BuildTupleKeyConditionFilter args _, c, ts : assert c == deref(req).GetContext() && ts == deref(typesys)
+//@     after call checkutil.BuildTupleKeyConditionFilter returning f : condFilter = f ; condMade = true
+//@     before call storage.NewConditionsFilteredTupleKeyIterator args it, f : assert it == validIt && condMade && f == condFilter
+//@     after call storage.TupleKeyIterator.Next returning k, e : nexted = true ; nextErr = e
+
+// ------------------------------------------------------------------ C01 / C08: the reducers (proved over the channel abstraction:
+// a receive yields an arbitrary outcome, so the statements are about what the reducer does with whatever it receives)
+// union: the answer is either an operand's own allowed response, or the reducer's fresh "not allowed" response; an
+// operand error is never turned into a definite answer (it fails the request unless another operand allowed)
+//@ func union(ctx, concurrencyLimit, handlers) (resp, err)
+//@   property C01
+//@   option nosafety
+//@   option defer_neutral
+//@   loop 1 invariant finalResult != nil && fresh(finalResult) && !finalResult.Allowed
+//@   ensures @allowedIsOperands err == nil && resp != nil && resp.Allowed ==> resp != finalResult && resp == outcome.resp && outcome.err == nil
+//@   ensures @deniedIsFresh err == nil && resp != nil && !resp.Allowed ==> resp == finalResult && finalErr == nil
+//@   ensures @errorNoAnswer err != nil ==> resp == nil
+
+// intersection: true only from the reducer's own response after the loop ended without a recorded error; a definite
+// false (or cycle) from any operand decides immediately; fewer than two operands is an error
+//@ func intersection(ctx, concurrencyLimit, handlers) (resp, err)
+//@   property C01
+//@   option nosafety
+//@   option defer_neutral
+//@   loop 1 invariant finalResult != nil && fresh(finalResult) && finalResult.Allowed
+//@   ensures @arity len(handlers) < 2 ==> err != nil && resp == nil
+//@   ensures @trueOnlyWithoutError err == nil && resp != nil && resp.Allowed ==> resp == finalResult && finalErr == nil
+//@   ensures @falseFromOperand err == nil && resp != nil && !resp.Allowed ==> resp == finalResult && outcome.err == nil && (outcome.resp.GetResolutionMetadata().CycleDetected || !outcome.resp.Allowed)
+//@   ensures @errorNoAnswer err != nil ==> resp == nil
+
+// exclusion: true only after both operands answered without error (base allowed, subtract not); a base that is false /
+// cyclic or a subtract that is true / cyclic decides false immediately; otherwise the base error, then the subtract error
+//@ func exclusion(ctx, _, handlers) (resp, err)
+//@   property C01
+//@   option nosafety
+//@   option defer_neutral
+//@   ensures @arity len(handlers) != 2 ==> err != nil && resp == nil
+//@   ensures @trueNeedsBoth err == nil && resp != nil && resp.Allowed ==> baseErr == nil && subErr == nil && resultsReceived >= 2
+//@   ensures @errorNoAnswer err != nil ==> resp == nil
+
+// aggregation of dispatched userset / TTU children: as union, plus the cycle flag of any consumed child sticks to a
+// "not allowed" answer (such an answer must not be cached: C08) and an upstream cancellation is an error, never a decision
+//@ func (*LocalChecker).consumeDispatches(c, ctx, limit, dispatchChan) (resp, err)
+//@   property C01 C08
+//@   option nosafety
+//@   loop 0 invariant finalResult != nil && !finalResult.Allowed && (cyc ==> finalResult.ResolutionMetadata.CycleDetected)
+//@   ensures @cycleSticks err == nil && resp != nil && !resp.Allowed ==> (cyc ==> resp.ResolutionMetadata.CycleDetected)
+//@   ensures @errorNoAnswer err != nil ==> resp == nil
+//@   ensures @deniedWithoutError err == nil && resp != nil && !resp.Allowed ==> finalErr == nil
+//@   monitor cycles
+//@     ghost cyc = false
+//@     after call (*graph.ResolveCheckResponse).GetResolutionMetadata returning m : cyc = cyc || m.CycleDetected
